@@ -252,6 +252,8 @@ class Project:
         self._load()
         self._index()
         self._link_classes()
+        from .canon import canonicalise
+        canonicalise(self)
 
     # ------------------------------------------------------------------ loading
     def _load(self):
